@@ -72,3 +72,50 @@ def explore(prog, on_exec, max_execs=100000, **cfg):
             capped = bool(stack)
             break
     return n, states, capped
+
+
+def observation(r):
+    """what a program can observe of one execution (for differential oracles)"""
+    return (repr(r.outcome), tuple(r.flushes), tuple(r.decisions), tuple(r.ctx_log),
+            tuple(sorted(r.probes.items())), tuple(sorted(r.steps.items())),
+            tuple(sorted(set(c for c, m in r.viol))))
+
+
+def run_history(comps, reset_between):
+    """comps: list of (prog, prefix, cfg).  Runs them one after another on the same thread, the
+    harness batch state carried over; the scheduler is reset before computation i>0 iff
+    reset_between.  Returns list of ExecResult."""
+    prev = None
+    worlds = []
+    out = []
+    for i, (prog, prefix, cfg) in enumerate(comps):
+        cfg = dict(cfg)
+        if prev is not None:
+            cfg["inherit"] = prev
+            cfg["lid_base"] = 1000 * i
+            cfg["keep_scheduler"] = not reset_between
+        w = Wd.World(prog, prefix=prefix, **cfg)
+        w.run()
+        r = ExecResult()
+        r.outcome = w.outcome
+        r.viol = list(w.viol)
+        r.flushes = w.flushes
+        r.decisions = w.decisions
+        r.ctx_log = w.ctx_log
+        r.probes = w.probes
+        r.steps = w.steps
+        r.started = set(w.steps)
+        r.nsteps = w.nsteps
+        r.transitions = w.transitions
+        r.computed = dict(w.computed)
+        r.schedule = tuple(d[1] for d in w.decisions)
+        r.unfinished = any(tid in w.steps and not t.is_computed() for tid, t in w.tasks.items())
+        r.sink = 0
+        out.append(r)
+        worlds.append(w)
+        prev = w
+    for w in worlds:
+        w.dispose()
+    del worlds, prev, w
+    gc.collect()
+    return out
